@@ -9,6 +9,8 @@ set_option linter.unusedVariables false
 namespace Fsic.Container
 open Fsic
 
+variable {cfg : Cfg}
+
 /-- Operands that a whole-series assignment (`obj.X = v`, `obj['X'] = v`, `replace_values(X=v)`) stores as a
     one-dimensional array or rejects: everything except a rectangular nested list whose outer length is the
     span length (which `np.array(v, dtype=…)` turns into a 2-D array whose `shape[0]` passes the length test). -/
@@ -19,22 +21,24 @@ def Operand.flatFor (n : Nat) : Operand → Prop
 instance (n : Nat) (v : Operand) : Decidable (v.flatFor n) := by
   cases v <;> unfold Operand.flatFor <;> infer_instance
 
-/-- The exact guard on an operation (in the store it is applied to). -/
-def Op.flatFor (s : Store) : Op → Prop
-  | .setAttr name v _ => s.get name = none ∨ v.flatFor s.n
-  | .setItem name v => s.get name = none ∨ v.flatFor s.n
-  | .replaceValues kvs => ∀ p ∈ kvs, p.2.flatFor s.n
-  | .setValues v _ => s.get "values" = none ∨ v.flatFor s.n
+/-- The exact guard on an operation (in the store it is applied to): nothing to exclude once `__setattr__`
+    compares the whole shape (`cfg.fullShape`). -/
+def Op.flatFor (cfg : Cfg) (s : Store) : Op → Prop
+  | .setAttr name v _ => cfg.fullShape = true ∨ s.get name = none ∨ v.flatFor s.n
+  | .setItem name v => cfg.fullShape = true ∨ s.get name = none ∨ v.flatFor s.n
+  | .replaceValues kvs => cfg.fullShape = true ∨ ∀ p ∈ kvs, p.2.flatFor s.n
+  | .setValues v _ => cfg.fullShape = true ∨ s.get "values" = none ∨ v.flatFor s.n
   | _ => True
 
-instance (s : Store) (op : Op) : Decidable (op.flatFor s) := by
+instance (cfg : Cfg) (s : Store) (op : Op) : Decidable (op.flatFor cfg s) := by
   cases op <;> unfold Op.flatFor <;> infer_instance
 
-theorem strictBlocks_true {s : Store} {name : Name} (hs : s.strict = true) (h1 : (name == "strict") = false)
-    (h2 : s.index.contains name = false) (h3 : s.attrs.contains name = false) : strictBlocks s name = true := by
+theorem strictBlocks_true {s : Store} {name : Name} (hs : s.strict = true)
+    (h1 : cfg.strictExempt.contains name = false)
+    (h2 : s.index.contains name = false) (h3 : s.attrs.contains name = false) : strictBlocks cfg s name = true := by
   unfold strictBlocks
-  rw [hs, h2, h3]
-  simp [bne, h1]
+  rw [hs, h1, h2, h3]
+  rfl
 
 /-! ### assignAt / assignWhole -/
 
@@ -68,13 +72,13 @@ theorem assignAt_attrs (s : Store) (name : Name) (ser : Series) (view : List Nat
 
 theorem assignWhole_nonseq {s : Store} {name : Name} {ser : Series} {v : Operand}
     (hv : v.isSequence = false) :
-    assignWhole s name ser v = assignAt s name ser (viewAll ser) v := by
+    assignWhole cfg s name ser v = assignAt s name ser (viewAll ser) v := by
   unfold assignWhole
   simp only [hv]
   rfl
 
 theorem assignWhole_ext {s : Store} {name : Name} {ser : Series} (hg : s.get name = some ser)
-    (v : Operand) : Ext s (assignWhole s name ser v).1 := by
+    (v : Operand) : Ext s (assignWhole cfg s name ser v).1 := by
   cases hv : v.isSequence
   · rw [assignWhole_nonseq hv]; exact assignAt_ext hg _ _
   · unfold assignWhole
@@ -88,12 +92,12 @@ theorem assignWhole_ext {s : Store} {name : Name} {ser : Series} (hg : s.get nam
       | error e => exact Ext.refl s
       | ok ws =>
         dsimp only
-        by_cases hd : shp.headD 0 ≠ s.n
-        · rw [if_pos hd]; exact Ext.refl s
-        · rw [if_neg hd]; exact Ext.put hg rfl
+        cases hd : shapeRejected cfg s.n shp with
+        | true => simp only [if_true]; exact Ext.refl s
+        | false => simp only [Bool.false_eq_true, if_false]; exact Ext.put hg rfl
 
 theorem assignWhole_attrs (s : Store) (name : Name) (ser : Series) (v : Operand) :
-    (assignWhole s name ser v).1.attrs = s.attrs ∧ (assignWhole s name ser v).1.strict = s.strict := by
+    (assignWhole cfg s name ser v).1.attrs = s.attrs ∧ (assignWhole cfg s name ser v).1.strict = s.strict := by
   cases hv : v.isSequence
   · rw [assignWhole_nonseq hv]; exact assignAt_attrs _ _ _ _ _
   · unfold assignWhole
@@ -107,12 +111,12 @@ theorem assignWhole_attrs (s : Store) (name : Name) (ser : Series) (v : Operand)
       | error e => exact ⟨rfl, rfl⟩
       | ok ws =>
         dsimp only
-        by_cases hd : shp.headD 0 ≠ s.n
-        · rw [if_pos hd]; exact ⟨rfl, rfl⟩
-        · rw [if_neg hd]; exact ⟨rfl, rfl⟩
+        cases hd : shapeRejected cfg s.n shp with
+        | true => exact ⟨rfl, rfl⟩
+        | false => exact ⟨rfl, rfl⟩
 
 theorem assignWhole_inv {s : Store} (h : Inv s) {name : Name} {ser : Series} (hg : s.get name = some ser)
-    {v : Operand} (hflat : v.flatFor s.n) : Inv (assignWhole s name ser v).1 := by
+    {v : Operand} (hflat : cfg.fullShape = true ∨ v.flatFor s.n) : Inv (assignWhole cfg s name ser v).1 := by
   cases hv : v.isSequence
   · rw [assignWhole_nonseq hv]; exact assignAt_inv h hg _ _
   · unfold assignWhole
@@ -126,31 +130,56 @@ theorem assignWhole_inv {s : Store} (h : Inv s) {name : Name} {ser : Series} (hg
       | error e => exact h
       | ok ws =>
         dsimp only
-        by_cases hd : shp.headD 0 ≠ s.n
-        · rw [if_pos hd]; exact h
-        · rw [if_neg hd]
+        cases hd : shapeRejected cfg s.n shp with
+        | true => simp only [if_true]; exact h
+        | false =>
+          simp only [Bool.false_eq_true, if_false]
           apply h.put
-          have hd' : shp.headD 0 = s.n := by simpa using hd
-          cases v with
-          | scalar x => simp [Operand.isSequence] at hv
-          | ndarray a => simp [Operand.isSequence] at hv
-          | list xs =>
-            simp only [listShape] at hl
-            cases hl
-            simp at hd'
-            exact ⟨by simp [hd'], by rw [convAll_length hc]; exact hd'⟩
-          | nested rows =>
-            simp only [listShape] at hl
-            by_cases hr : rect rows = true
-            · simp only [hr, if_true] at hl
+          have hlen := convAll_length hc
+          unfold shapeRejected at hd
+          by_cases hfs : cfg.fullShape = true
+          · -- the whole shape was compared with (n,)
+            simp only [hfs, if_true, bne_eq_false_iff_eq] at hd
+            cases v with
+            | scalar x => simp [Operand.isSequence] at hv
+            | ndarray a => simp [Operand.isSequence] at hv
+            | list xs =>
+              simp only [listShape] at hl
               cases hl
-              simp at hd'
-              exact absurd ⟨hr, hd'⟩ hflat
-            · simp [hr] at hl
+              simp at hd
+              exact ⟨by simp [hd], by rw [hlen]; exact hd⟩
+            | nested rows =>
+              simp only [listShape] at hl
+              by_cases hr : rect rows = true
+              · simp only [hr, if_true] at hl
+                cases hl
+                simp at hd
+              · simp [hr] at hl
+          · simp only [hfs, Bool.false_eq_true, if_false, bne_eq_false_iff_eq] at hd
+            have hflat' : v.flatFor s.n := by
+              rcases hflat with hf | hf
+              · exact absurd hf hfs
+              · exact hf
+            cases v with
+            | scalar x => simp [Operand.isSequence] at hv
+            | ndarray a => simp [Operand.isSequence] at hv
+            | list xs =>
+              simp only [listShape] at hl
+              cases hl
+              simp at hd
+              exact ⟨by simp [hd], by rw [hlen]; exact hd⟩
+            | nested rows =>
+              simp only [listShape] at hl
+              by_cases hr : rect rows = true
+              · simp only [hr, if_true] at hl
+                cases hl
+                simp at hd
+                exact absurd ⟨hr, hd⟩ hflat'
+              · simp [hr] at hl
 
 theorem assignWhole_failed {s : Store} {name : Name} {ser : Series} (hg : s.get name = some ser)
-    {v : Operand} {e : Exc} (h : (assignWhole s name ser v).2 = .raised e) (he : e ≠ .valueConv) :
-    (assignWhole s name ser v).1 = s := by
+    {v : Operand} {e : Exc} (h : (assignWhole cfg s name ser v).2 = .raised e) (he : e ≠ .valueConv) :
+    (assignWhole cfg s name ser v).1 = s := by
   cases hv : v.isSequence
   · rw [assignWhole_nonseq hv] at h ⊢; exact assignAt_failed hg h he
   · unfold assignWhole at h ⊢
@@ -166,9 +195,9 @@ theorem assignWhole_failed {s : Store} {name : Name} {ser : Series} (hg : s.get 
       | ok ws =>
         rw [hc] at h
         dsimp only at h ⊢
-        by_cases hd : shp.headD 0 ≠ s.n
-        · rw [if_pos hd]
-        · rw [if_neg hd] at h; cases h
+        cases hd : shapeRejected cfg s.n shp with
+        | true => simp only [if_true]
+        | false => rw [hd] at h; simp only [Bool.false_eq_true, if_false] at h; cases h
 
 /-! ### add_variable -/
 
@@ -220,37 +249,41 @@ theorem astype_rank1 {k : Option Kind} {a a' : Series} (ha : a.rank1) (h : astyp
       simp only [Series.rank1] at ha ⊢
       rw [ha, convAll_length hc]
 
-theorem addVariable_cases (s : Store) (name : Name) (v : Operand) (dtype : Option Kind) :
-    (∃ e, addVariable s name v dtype = (s, .raised e)) ∨
+theorem addVariable_cases (cfg : Cfg) (s : Store) (name : Name) (v : Operand) (dtype : Option Kind) :
+    (∃ e, addVariable cfg s name v dtype = (s, .raised e)) ∨
     (∃ a, a.rank1 ∧ firstDim a = s.n ∧ ¬ s.index.contains name = true ∧
-      addVariable s name v dtype = ({ s with vars := s.vars ++ [(name, a)] }, .ok)) := by
+      ¬ (cfg.addVarChecksAttrs && s.attrs.contains name) = true ∧
+      addVariable cfg s name v dtype = ({ s with vars := s.vars ++ [(name, a)] }, .ok)) := by
   unfold addVariable
   by_cases hc : s.index.contains name = true
   · left; exact ⟨_, by rw [if_pos hc]⟩
   · rw [if_neg hc]
-    cases hn : newArray s.n v with
-    | error e => left; exact ⟨e, rfl⟩
-    | ok a =>
-      dsimp only
-      cases ht : astype (effKind s dtype) a with
+    by_cases hat : (cfg.addVarChecksAttrs && s.attrs.contains name) = true
+    · left; exact ⟨_, by rw [if_pos hat]⟩
+    · rw [if_neg hat]
+      cases hn : newArray s.n v with
       | error e => left; exact ⟨e, rfl⟩
-      | ok a' =>
+      | ok a =>
         dsimp only
-        by_cases hd : firstDim a' ≠ s.n
-        · left; exact ⟨.dimension, by rw [if_pos hd]⟩
-        · right
-          refine ⟨a', astype_rank1 (newArray_rank1 hn) ht, by simpa using hd, hc, ?_⟩
-          rw [if_neg hd]
+        cases ht : astype (effKind s dtype) a with
+        | error e => left; exact ⟨e, rfl⟩
+        | ok a' =>
+          dsimp only
+          by_cases hd : firstDim a' ≠ s.n
+          · left; exact ⟨.dimension, by rw [if_pos hd]⟩
+          · right
+            refine ⟨a', astype_rank1 (newArray_rank1 hn) ht, by simpa using hd, hc, hat, ?_⟩
+            rw [if_neg hd]
 
 theorem addVariable_ext (s : Store) (name : Name) (v : Operand) (dtype : Option Kind) :
-    Ext s (addVariable s name v dtype).1 := by
-  rcases addVariable_cases s name v dtype with ⟨e, h⟩ | ⟨a, _, _, _, h⟩
+    Ext s (addVariable cfg s name v dtype).1 := by
+  rcases addVariable_cases cfg s name v dtype with ⟨e, h⟩ | ⟨a, _, _, _, _, h⟩
   · rw [h]; exact Ext.refl s
   · rw [h]; exact Ext.addVar s name a
 
 theorem addVariable_inv {s : Store} (hi : Inv s) (name : Name) (v : Operand) (dtype : Option Kind) :
-    Inv (addVariable s name v dtype).1 := by
-  rcases addVariable_cases s name v dtype with ⟨e, h⟩ | ⟨a, hr, hd, _, h⟩
+    Inv (addVariable cfg s name v dtype).1 := by
+  rcases addVariable_cases cfg s name v dtype with ⟨e, h⟩ | ⟨a, hr, hd, _, _, h⟩
   · rw [h]; exact hi
   · rw [h]
     intro p hp
@@ -265,14 +298,15 @@ theorem addVariable_inv {s : Store} (hi : Inv s) (name : Name) (v : Operand) (dt
       exact ⟨by rw [hr, this]; rfl, this⟩
 
 theorem addVariable_failed {s : Store} {name : Name} {v : Operand} {dtype : Option Kind} {e : Exc}
-    (h : (addVariable s name v dtype).2 = .raised e) : (addVariable s name v dtype).1 = s := by
-  rcases addVariable_cases s name v dtype with ⟨e', h'⟩ | ⟨a, _, _, _, h'⟩
+    (h : (addVariable cfg s name v dtype).2 = .raised e) : (addVariable cfg s name v dtype).1 = s := by
+  rcases addVariable_cases cfg s name v dtype with ⟨e', h'⟩ | ⟨a, _, _, _, _, h'⟩
   · rw [h']
   · rw [h'] at h; cases h
 
 /-- What `add_variable` computes from the store — it reads the index, the span length and the default dtype only. -/
-def addVarResult (s : Store) (name : Name) (v : Operand) (dtype : Option Kind) : Except Exc Series :=
+def addVarResult (cfg : Cfg) (s : Store) (name : Name) (v : Operand) (dtype : Option Kind) : Except Exc Series :=
   if s.index.contains name then .error .duplicateName
+  else if cfg.addVarChecksAttrs && s.attrs.contains name then .error .duplicateName
   else match newArray s.n v with
     | .error e => .error e
     | .ok a => match astype (effKind s dtype) a with
@@ -280,55 +314,58 @@ def addVarResult (s : Store) (name : Name) (v : Operand) (dtype : Option Kind) :
       | .ok a' => if firstDim a' ≠ s.n then .error .dimension else .ok a'
 
 theorem addVariable_eq (s : Store) (name : Name) (v : Operand) (dtype : Option Kind) :
-    addVariable s name v dtype = match addVarResult s name v dtype with
+    addVariable cfg s name v dtype = match addVarResult cfg s name v dtype with
       | .error e => (s, .raised e)
       | .ok a => ({ s with vars := s.vars ++ [(name, a)] }, .ok) := by
   unfold addVariable addVarResult
   by_cases hc : name ∈ s.index
   · simp [hc]
-  · cases hn : newArray s.n v with
-    | error e => simp [hc, hn]
-    | ok a =>
-      cases ht : astype (effKind s dtype) a with
-      | error e => simp [hc, hn, ht]
-      | ok a' => by_cases hd : firstDim a' = s.n <;> simp [hc, hn, ht, hd]
+  · by_cases hat : cfg.addVarChecksAttrs = true ∧ name ∈ s.attrs
+    · simp [hc, hat]
+    · cases hn : newArray s.n v with
+      | error e => simp [hc, hat, hn]
+      | ok a =>
+        cases ht : astype (effKind s dtype) a with
+        | error e => simp [hc, hat, hn, ht]
+        | ok a' => by_cases hd : firstDim a' = s.n <;> simp [hc, hat, hn, ht, hd]
 
 /-! ### setAttr / setItem / positional and label sets -/
 
-theorem setItem_ext (s : Store) (name : Name) (v : Operand) : Ext s (setItem s name v).1 := by
+theorem setItem_ext (s : Store) (name : Name) (v : Operand) : Ext s (setItem cfg s name v).1 := by
   unfold setItem
   cases hg : s.get name with
   | none => exact Ext.refl s
   | some ser => exact assignWhole_ext hg v
 
 theorem setItem_inv {s : Store} (h : Inv s) {name : Name} {v : Operand}
-    (hflat : s.get name = none ∨ v.flatFor s.n) : Inv (setItem s name v).1 := by
+    (hflat : cfg.fullShape = true ∨ s.get name = none ∨ v.flatFor s.n) : Inv (setItem cfg s name v).1 := by
   unfold setItem
   cases hg : s.get name with
   | none => exact h
   | some ser =>
-    rcases hflat with hf | hf
+    rcases hflat with hf | hf | hf
+    · exact assignWhole_inv h hg (Or.inl hf)
     · rw [hg] at hf; cases hf
-    · exact assignWhole_inv h hg hf
+    · exact assignWhole_inv h hg (Or.inr hf)
 
 theorem setItem_failed {s : Store} {name : Name} {v : Operand} {e : Exc}
-    (h : (setItem s name v).2 = .raised e) (he : e ≠ .valueConv) : (setItem s name v).1 = s := by
+    (h : (setItem cfg s name v).2 = .raised e) (he : e ≠ .valueConv) : (setItem cfg s name v).1 = s := by
   unfold setItem at h ⊢
   cases hg : s.get name with
   | none => rfl
   | some ser => simp only [hg] at h ⊢; exact assignWhole_failed hg h he
 
 theorem setItem_attrs (s : Store) (name : Name) (v : Operand) :
-    (setItem s name v).1.attrs = s.attrs ∧ (setItem s name v).1.strict = s.strict := by
+    (setItem cfg s name v).1.attrs = s.attrs ∧ (setItem cfg s name v).1.strict = s.strict := by
   unfold setItem
   cases hg : s.get name with
   | none => exact ⟨rfl, rfl⟩
   | some ser => exact assignWhole_attrs _ _ _ _
 
 theorem setAttr_ext (s : Store) (name : Name) (v : Operand) (alts : List Name) :
-    Ext s (setAttr s name v alts).1 := by
+    Ext s (setAttr cfg s name v alts).1 := by
   unfold setAttr
-  by_cases hb : strictBlocks s name = true
+  by_cases hb : strictBlocks cfg s name = true
   · simp only [hb, if_true]; exact Ext.refl s
   · simp only [hb]
     cases hg : s.get name with
@@ -343,9 +380,9 @@ theorem setAttr_ext (s : Store) (name : Name) (v : Operand) (alts : List Name) :
     | some ser => exact assignWhole_ext hg v
 
 theorem setAttr_inv {s : Store} (h : Inv s) {name : Name} {v : Operand} (alts : List Name)
-    (hflat : s.get name = none ∨ v.flatFor s.n) : Inv (setAttr s name v alts).1 := by
+    (hflat : cfg.fullShape = true ∨ s.get name = none ∨ v.flatFor s.n) : Inv (setAttr cfg s name v alts).1 := by
   unfold setAttr
-  by_cases hb : strictBlocks s name = true
+  by_cases hb : strictBlocks cfg s name = true
   · simp only [hb, if_true]; exact h
   · simp only [hb]
     cases hg : s.get name with
@@ -358,15 +395,16 @@ theorem setAttr_inv {s : Store} (h : Inv s) {name : Name} {v : Operand} (alts : 
         · simp only [h2, if_true]; exact h
         · simp only [h2]; exact h
     | some ser =>
-      rcases hflat with hf | hf
+      rcases hflat with hf | hf | hf
+      · exact assignWhole_inv h hg (Or.inl hf)
       · rw [hg] at hf; cases hf
-      · exact assignWhole_inv h hg hf
+      · exact assignWhole_inv h hg (Or.inr hf)
 
 theorem setAttr_failed {s : Store} {name : Name} {v : Operand} {alts : List Name} {e : Exc}
-    (h : (setAttr s name v alts).2 = .raised e) (he : e ≠ .valueConv) :
-    (setAttr s name v alts).1 = s := by
+    (h : (setAttr cfg s name v alts).2 = .raised e) (he : e ≠ .valueConv) :
+    (setAttr cfg s name v alts).1 = s := by
   unfold setAttr at h ⊢
-  by_cases hb : strictBlocks s name = true
+  by_cases hb : strictBlocks cfg s name = true
   · simp only [hb, if_true]
   · simp only [hb] at h ⊢
     cases hg : s.get name with
@@ -541,69 +579,73 @@ theorem setLabelSlice_all (s : Store) (name : Name) (a b : Option Nat) (st : Opt
 
 /-! ### Bulk operations -/
 
-theorem replaceValues_ext (s : Store) (kvs : List (Name × Operand)) : Ext s (replaceValues s kvs).1 := by
+theorem replaceValues_ext (s : Store) (kvs : List (Name × Operand)) : Ext s (replaceValues cfg s kvs).1 := by
   induction kvs generalizing s with
   | nil => exact Ext.refl s
   | cons p rest ih =>
     obtain ⟨k, v⟩ := p
     unfold replaceValues
-    have h1 := setItem_ext s k v
-    generalize setItem s k v = r at h1
+    have h1 := setItem_ext (cfg := cfg) s k v
+    generalize setItem cfg s k v = r at h1
     obtain ⟨s', o⟩ := r
     cases o with
     | ok => exact h1.trans (ih s')
     | raised e => exact h1
 
 theorem replaceValues_inv {s : Store} (h : Inv s) {kvs : List (Name × Operand)}
-    (hflat : ∀ p ∈ kvs, p.2.flatFor s.n) : Inv (replaceValues s kvs).1 := by
+    (hflat : cfg.fullShape = true ∨ ∀ p ∈ kvs, p.2.flatFor s.n) : Inv (replaceValues cfg s kvs).1 := by
   induction kvs generalizing s with
   | nil => exact h
   | cons p rest ih =>
     obtain ⟨k, v⟩ := p
     unfold replaceValues
-    have h1 := setItem_inv h (name := k) (v := v) (Or.inr (hflat (k, v) (by simp)))
-    have h2 := (setItem_ext s k v).n
-    generalize setItem s k v = r at h1 h2
+    have h1 := setItem_inv (cfg := cfg) h (name := k) (v := v)
+      (hflat.elim Or.inl (fun hf => Or.inr (Or.inr (hf (k, v) (by simp)))))
+    have h2 := (setItem_ext (cfg := cfg) s k v).n
+    generalize setItem cfg s k v = r at h1 h2
     obtain ⟨s', o⟩ := r
     cases o with
     | ok =>
       apply ih h1
-      intro q hq
-      simp only at h2
-      rw [h2]
-      exact hflat q (List.mem_cons_of_mem _ hq)
+      rcases hflat with hf | hf
+      · exact Or.inl hf
+      · right
+        intro q hq
+        simp only at h2
+        rw [h2]
+        exact hf q (List.mem_cons_of_mem _ hq)
     | raised e => exact h1
 
 theorem replaceValues_attrs (s : Store) (kvs : List (Name × Operand)) :
-    (replaceValues s kvs).1.attrs = s.attrs ∧ (replaceValues s kvs).1.strict = s.strict := by
+    (replaceValues cfg s kvs).1.attrs = s.attrs ∧ (replaceValues cfg s kvs).1.strict = s.strict := by
   induction kvs generalizing s with
   | nil => exact ⟨rfl, rfl⟩
   | cons p rest ih =>
     obtain ⟨k, v⟩ := p
     unfold replaceValues
-    have h1 := setItem_attrs s k v
-    generalize setItem s k v = r at h1
+    have h1 := setItem_attrs (cfg := cfg) s k v
+    generalize setItem cfg s k v = r at h1
     obtain ⟨s', o⟩ := r
     cases o with
     | ok => exact ⟨(ih s').1.trans h1.1, (ih s').2.trans h1.2⟩
     | raised e => exact h1
 
 theorem setRowArray_all (s : Store) (name : Name) (row : Series) :
-    Ext s (setRowArray s name row).1 ∧ (Inv s → Inv (setRowArray s name row).1) ∧
-    (setRowArray s name row).1.attrs = s.attrs ∧ (setRowArray s name row).1.strict = s.strict := by
+    Ext s (setRowArray cfg s name row).1 ∧ (Inv s → Inv (setRowArray cfg s name row).1) ∧
+    (setRowArray cfg s name row).1.attrs = s.attrs ∧ (setRowArray cfg s name row).1.strict = s.strict := by
   unfold setRowArray
   cases hg : s.get name with
   | none => exact ⟨Ext.refl s, id, rfl, rfl⟩
   | some ser =>
-    exact ⟨assignWhole_ext hg _, fun h => assignWhole_inv h hg (by simp [Operand.flatFor]),
+    exact ⟨assignWhole_ext hg _, fun h => assignWhole_inv h hg (Or.inr (by simp [Operand.flatFor])),
       (assignWhole_attrs _ _ _ _).1, (assignWhole_attrs _ _ _ _).2⟩
 
 theorem setValuesRows_all (s : Store) (rowShape : List Nat) (dt : Dtype) (names : List Name)
     (rows : List (List Val)) :
-    Ext s (setValuesRows s rowShape dt names rows).1 ∧
-    (Inv s → Inv (setValuesRows s rowShape dt names rows).1) ∧
-    (setValuesRows s rowShape dt names rows).1.attrs = s.attrs ∧
-    (setValuesRows s rowShape dt names rows).1.strict = s.strict := by
+    Ext s (setValuesRows cfg s rowShape dt names rows).1 ∧
+    (Inv s → Inv (setValuesRows cfg s rowShape dt names rows).1) ∧
+    (setValuesRows cfg s rowShape dt names rows).1.attrs = s.attrs ∧
+    (setValuesRows cfg s rowShape dt names rows).1.strict = s.strict := by
   induction names generalizing s rows with
   | nil => unfold setValuesRows; exact ⟨Ext.refl s, id, rfl, rfl⟩
   | cons name names ih =>
@@ -619,8 +661,8 @@ theorem setValuesRows_all (s : Store) (rowShape : List Nat) (dt : Dtype) (names 
         | error e => exact ⟨Ext.refl s, id, rfl, rfl⟩
         | ok ws =>
           dsimp only
-          have h1 := setRowArray_all s name ⟨ser.dtype, rowShape, ws⟩
-          generalize setRowArray s name ⟨ser.dtype, rowShape, ws⟩ = r at h1
+          have h1 := setRowArray_all (cfg := cfg) s name ⟨ser.dtype, rowShape, ws⟩
+          generalize setRowArray cfg s name ⟨ser.dtype, rowShape, ws⟩ = r at h1
           obtain ⟨s', o⟩ := r
           cases o with
           | ok =>
@@ -630,8 +672,8 @@ theorem setValuesRows_all (s : Store) (rowShape : List Nat) (dt : Dtype) (names 
           | raised e => exact h1
 
 theorem setValuesFill_all (s : Store) (v : Operand) (names : List Name) :
-    Ext s (setValuesFill s v names).1 ∧ (Inv s → Inv (setValuesFill s v names).1) ∧
-    (setValuesFill s v names).1.attrs = s.attrs ∧ (setValuesFill s v names).1.strict = s.strict := by
+    Ext s (setValuesFill cfg s v names).1 ∧ (Inv s → Inv (setValuesFill cfg s v names).1) ∧
+    (setValuesFill cfg s v names).1.attrs = s.attrs ∧ (setValuesFill cfg s v names).1.strict = s.strict := by
   induction names generalizing s with
   | nil => unfold setValuesFill; exact ⟨Ext.refl s, id, rfl, rfl⟩
   | cons name names ih =>
@@ -651,8 +693,8 @@ theorem setValuesFill_all (s : Store) (v : Operand) (names : List Name) :
         | raised e => exact ⟨Ext.refl s, id, rfl, rfl⟩
         | ok =>
           dsimp only
-          have h1 := setRowArray_all s name full
-          generalize setRowArray s name full = r at h1
+          have h1 := setRowArray_all (cfg := cfg) s name full
+          generalize setRowArray cfg s name full = r at h1
           obtain ⟨s', o'⟩ := r
           cases o' with
           | ok =>
@@ -662,8 +704,8 @@ theorem setValuesFill_all (s : Store) (v : Operand) (names : List Name) :
           | raised e => exact h1
 
 theorem setValuesCore_all (s : Store) (v : Operand) :
-    Ext s (setValuesCore s v).1 ∧ (Inv s → Inv (setValuesCore s v).1) ∧
-    (setValuesCore s v).1.attrs = s.attrs ∧ (setValuesCore s v).1.strict = s.strict := by
+    Ext s (setValuesCore cfg s v).1 ∧ (Inv s → Inv (setValuesCore cfg s v).1) ∧
+    (setValuesCore cfg s v).1.attrs = s.attrs ∧ (setValuesCore cfg s v).1.strict = s.strict := by
   unfold setValuesCore
   cases v with
   | ndarray a =>
